@@ -2,10 +2,10 @@ package main
 
 import (
 	"fmt"
-	"strings"
 	"go/ast"
 	"go/token"
 	"go/types"
+	"strings"
 )
 
 type loopParts struct {
@@ -21,6 +21,8 @@ type loopParts struct {
 	postF   func(st *State)
 	atHead  func(st *State) // facts established at every loop head (after havoc)
 	initCtr string
+	visited string
+	visSort string
 }
 
 func (fx *Fx) loopSpec(ord int) *LoopSpec {
@@ -158,8 +160,23 @@ func (fx *Fx) execRange(st *State, s *ast.RangeStmt) {
 		key := typeKey(xt)
 		lp.counter = ""
 		more := ""
-		lp.atHead = func(t *State) { more = c.freshConst("more", "Bool") }
+		// ghost: the set of keys visited so far (each key of the map is visited exactly once)
+		visSort := "(Array " + ks + " Bool)"
+		visName := fmt.Sprintf("b:mvis%d", lp.ord)
+		lp.visited = visName
+		lp.visSort = visSort
+		st.ghostSorted(visName, visSort, fmt.Sprintf("((as const %s) false)", visSort))
+		domAtEntry := fmt.Sprintf("(select %s %s)", st.heap("MD:"+key, "(Array Int (Array "+ks+" Bool))"), m.T)
+		lp.atHead = func(t *State) {
+			more = c.freshConst("more", "Bool")
+			vis := c.freshConst("mvis", visSort)
+			t.ghostSorted(visName, visSort, vis)
+			// only keys of the map are ever visited; the loop goes on exactly while an unvisited key remains
+			t.assume(fmt.Sprintf("(forall ((k!v %s)) (! (=> (select %s k!v) (select %s k!v)) :pattern ((select %s k!v))))", ks, vis, domAtEntry, vis))
+			t.assume(fmt.Sprintf("(=> (not %s) (forall ((k!v %s)) (! (=> (select %s k!v) (select %s k!v)) :pattern ((select %s k!v)))))", more, ks, domAtEntry, vis, domAtEntry))
+		}
 		lp.condF = func(t *State) string { return more }
+		lp.postF = func(t *State) {}
 		lp.preBody = func(t *State) {
 			k := c.freshConst("mk", ks)
 			if ra := c.rangeAssume(k, u.Key()); ra != "" {
@@ -167,6 +184,9 @@ func (fx *Fx) execRange(st *State, s *ast.RangeStmt) {
 			}
 			hd := t.heap("MD:"+key, "(Array Int (Array "+ks+" Bool))")
 			hv := t.heap("MV:"+key, "(Array Int (Array "+ks+" "+vs+"))")
+			vis := t.ghost[visName]
+			t.assume(fmt.Sprintf("(and (select %s %s) (not (select %s %s)))", domAtEntry, k, vis, k))
+			t.ghostSorted(visName, visSort, c.define("mvis", visSort, fmt.Sprintf("(store %s %s true)", vis, k)))
 			t.assume(fmt.Sprintf("(and (not (= %s 0)) (select (select %s %s) %s))", m.T, hd, m.T, k))
 			kv := Val{T: k, S: ks, GT: u.Key()}
 			vv := fx.loaded(t, Val{T: fmt.Sprintf("(select (select %s %s) %s)", hv, m.T, k), S: vs, GT: u.Elem()})
@@ -210,6 +230,11 @@ func (fx *Fx) runLoop(st *State, lp *loopParts) {
 	if lp.counter != "" {
 		fx.setCounter(st, lp, lp.initCtr)
 	}
+	if fx.loopEntries == nil {
+		fx.loopEntries = map[string]*State{}
+	}
+	fx.loopEntries[fmt.Sprint(lp.ord)] = st.clone()
+	defer delete(fx.loopEntries, fmt.Sprint(lp.ord))
 	// 1. invariants on entry
 	for k, inv := range invs {
 		env := fx.specEnv(st, fx.entry, lp.body.Lbrace+1)
@@ -442,6 +467,13 @@ func (fx *Fx) dryLoopBody(st *State, lp *loopParts) {
 	}
 	fx.loopHeads[fmt.Sprint(lp.ord)] = t.clone()
 	defer delete(fx.loopHeads, fmt.Sprint(lp.ord))
+	if fx.loopEntries == nil {
+		fx.loopEntries = map[string]*State{}
+	}
+	if _, has := fx.loopEntries[fmt.Sprint(lp.ord)]; !has {
+		fx.loopEntries[fmt.Sprint(lp.ord)] = t.clone()
+		defer delete(fx.loopEntries, fmt.Sprint(lp.ord))
+	}
 	if lp.counter != "" {
 		fx.setCounter(t, lp, c.freshConst("rk", "Int"))
 	}
